@@ -1219,7 +1219,16 @@ pub fn c14(big: bool) -> BoxedStrategy<Case> {
     let cause = prop_oneof![6 => Just(Cause::None), 2 => (0u32..5).prop_map(Cause::HandlerPanic), 1 => Just(Cause::StartFail(FailHow::Err)), 1 => (1u32..8).prop_map(Cause::Cancel)];
     // client 0: registry operations (sequential), stops, queries; the others: awaits and queries
     let base0 = OpWeights { send: 6, call: 8, ping: 2, convert: 8, yield_: 4, sleep: 6, give: 2, drop: 3, stop: 10, halt: 1, try_stop: 3, await_: 2, query: 26, max_sleep: 3, ..MSG_WEIGHTS };
-    let op0 = mixed_ops(base0, vec![(20, reg_op(1, [6, 1, 4, 1, 1, 5, 2])), (6, msg_op(1, 1, ctx_work(2, 4, 0)))]);
+    // the broker behind ctx.subscribe is an on-demand service too: it is stopped (awaited or not) and the
+    // actor subscribes again, from a handler or - after a restart - from `started`
+    let resub = (h(), any::<bool>()).prop_map(|(h, call)| {
+        let work = vec![Step::Subscribe(0)];
+        if call { ClientOp::Call { h, work } } else { ClientOp::Send { h, work } }
+    });
+    let op0 = mixed_ops(
+        OpWeights { restart: 2, ..base0 },
+        vec![(20, reg_op(1, [6, 1, 4, 1, 1, 5, 2])), (6, msg_op(1, 1, ctx_work(2, 4, 0))), (3, any::<bool>().prop_map(|wait| ClientOp::BrokerHalt { topic: 0, wait }).boxed()), (4, resub.boxed())],
+    );
     let base_n = OpWeights { send: 6, call: 8, ping: 2, convert: 6, yield_: 6, sleep: 10, give: 2, drop: 2, stop: 4, halt: 2, try_stop: 2, await_: 10, query: 40, max_sleep: 3, ..MSG_WEIGHTS };
     let opn = client_op(base_n);
     (spawn, cause, 1usize..=3)
@@ -1246,7 +1255,8 @@ pub fn c14(big: bool) -> BoxedStrategy<Case> {
             let mut clients = vec![c0];
             clients.append(&mut rest);
             let stopped = if schedule.len() % 3 == 0 { vec![Step::Yield, Step::Sleep(2), Step::Yield] } else { vec![] };
-            finalize(Case { family: Family::C14, actors: one_actor(spawn, Behavior { stopped, ..Default::default() }), default_beh: vec![], grants, clients, faults, schedule, settle: 0 })
+            let started = if schedule.len() % 4 == 1 { vec![Step::Subscribe(0)] } else { vec![] };
+            finalize(Case { family: Family::C14, actors: one_actor(spawn, Behavior { stopped, started, ..Default::default() }), default_beh: vec![], grants, clients, faults, schedule, settle: 0 })
         })
         .boxed()
 }
